@@ -1127,6 +1127,16 @@ fn check_c17(c: &StepCtx, cfg: &Cfg, kind: &str, body: &Value, attrs: &[(String,
                             }
                         }
                     }
+                    // one account collecting both fees: it must have received their sum
+                    if let (Some(x), Some(y)) = (&afa, &bfa) {
+                        if x == y && x != &b.owner && x != &seller && x != CONTRACT {
+                            if let (Some(af), Some(bf)) = (num("ask_fee"), num("bid_fee")) {
+                                if af as i128 + bf as i128 != got(x) {
+                                    viol(out, "C17", "attributes", "reported ask_fee + bid_fee differ from what the shared fee account was paid", format!("ask_fee {} bid_fee {} account {} received {}", af, bf, x, got(x)));
+                                }
+                            }
+                        }
+                    }
                     match &bfa {
                         None => {
                             if num("bid_fee") != Some(0) {
